@@ -6,12 +6,14 @@
    in place, through an alias of the operand) *)
 EXTENDS LensCommon
 LT(ins, xs) == [c |-> "Ten", ins |-> ins, dt |-> 0, sh |-> <<>>,
-                data |-> [k \in 1..Len(xs) |-> IF xs[k] = 0 THEN NegInf ELSE MkL(xs[k], 1)]]
+                data |-> [k \in 1..Len(xs) |-> IF xs[k] = 0 THEN NegInf ELSE IF xs[k] < 0 THEN PosInf ELSE MkL(xs[k], 1)]]
 L_Leaves == <<
   LT(<<I, J>>, <<1, 0, 3, 0, 0, 2>>),
   LT(<<J>>, <<2, 0, 5>>),
   LT(<<I>>, <<0, 3>>),
-  LT(<<J, K>>, <<0, 0, 1, 2, 0, 4>>) >>
+  LT(<<J, K>>, <<0, 0, 1, 2, 0, 4>>),
+  \* plus infinity as well (log-sum-exp of a slice containing +inf is +inf, not NaN)
+  LT(<<I, J>>, <<2, -1, 3, 1, 1, -1>>) >>
 L_UnOps == <<>>
 L_BinOps == <<Op0("add"), Op0("logaddexp")>>
 L_RedOps == <<"logaddexp">>
